@@ -12,3 +12,103 @@ pub fn rewrite(rules: &[(Vec<String>, Vec<String>)], features: &[String]) -> Opt
     }
     FeatureRewriter::from(b).rewrite(features)
 }
+// ---- feature extractor hooks (C18 / C20) ----
+
+use super::config::TrainerConfig;
+use super::feature_extractor::FeatureExtractor;
+use super::Trainer;
+
+/// The three interning maps (unigram, left, right), each sorted by id.
+pub type IdMaps = [Vec<(String, u32)>; 3];
+
+fn dump_maps(fe: &FeatureExtractor) -> IdMaps {
+    let d = |m: &hashbrown::HashMap<String, std::num::NonZeroU32>| {
+        let mut v: Vec<(String, u32)> = m.iter().map(|(k, v)| (k.clone(), v.get())).collect();
+        v.sort_by_key(|x| x.1);
+        v
+    };
+    [
+        d(&fe.unigram_feature_ids),
+        d(&fe.left_feature_ids),
+        d(&fe.right_feature_ids),
+    ]
+}
+
+fn extract_call(fe: &mut FeatureExtractor, kind: u8, cate: u32, feats: &[String]) -> Vec<Option<u32>> {
+    match kind {
+        0 => fe
+            .extract_unigram_feature_ids(feats, cate)
+            .into_iter()
+            .map(|x| Some(x.get()))
+            .collect(),
+        1 => fe
+            .extract_left_feature_ids(feats)
+            .into_iter()
+            .map(|x| x.map(|y| y.get()))
+            .collect(),
+        _ => fe
+            .extract_right_feature_ids(feats)
+            .into_iter()
+            .map(|x| x.map(|y| y.get()))
+            .collect(),
+    }
+}
+
+/// `FeatureExtractor::new(unigram, bigram)` followed by the extraction calls
+/// `(kind, category id, features)` with kind 0 = unigram, 1 = left, 2 = right.
+/// Returns the id list of every call and the final interning maps.
+pub fn extract_session(
+    unigram: &[String],
+    bigram: &[(String, String)],
+    calls: &[(u8, u32, Vec<String>)],
+) -> (Vec<Vec<Option<u32>>>, IdMaps) {
+    let mut fe = FeatureExtractor::new(unigram, bigram);
+    let mut out = vec![];
+    for (kind, cate, feats) in calls {
+        out.push(extract_call(&mut fe, *kind, *cate, feats));
+    }
+    let maps = dump_maps(&fe);
+    (out, maps)
+}
+
+/// `TrainerConfig::parse_feature_config(bytes)`; on success one unigram, one left and one
+/// right extraction with `feats`, returning the interning maps.  `None` = `Err`.
+pub fn feature_config_probe(bytes: &[u8], cate: u32, feats: &[String]) -> Option<IdMaps> {
+    let mut fe = TrainerConfig::parse_feature_config(bytes).ok()?;
+    extract_call(&mut fe, 0, cate, feats);
+    extract_call(&mut fe, 1, cate, feats);
+    extract_call(&mut fe, 2, cate, feats);
+    Some(dump_maps(&fe))
+}
+
+/// `Trainer::extract_feature_set` on every `(category id, feature string)` row in order, with
+/// rewriters built from the three rule lists (unigram, left, right).
+/// Returns per row `(unigram ids, bigram_right ids, bigram_left ids)` and the final maps.
+#[allow(clippy::type_complexity)]
+pub fn extract_feature_sets(
+    unigram: &[String],
+    bigram: &[(String, String)],
+    rules: [&[(Vec<String>, Vec<String>)]; 3],
+    rows: &[(u32, String)],
+) -> (Vec<(Vec<u32>, Vec<Option<u32>>, Vec<Option<u32>>)>, IdMaps) {
+    let mut fe = FeatureExtractor::new(unigram, bigram);
+    let build = |rs: &[(Vec<String>, Vec<String>)]| {
+        let mut b = FeatureRewriterBuilder::new();
+        for (p, w) in rs {
+            b.add_rule(p, w);
+        }
+        FeatureRewriter::from(b)
+    };
+    let (ru, rl, rr) = (build(rules[0]), build(rules[1]), build(rules[2]));
+    let mut out = vec![];
+    for (cate, row) in rows {
+        let fs = Trainer::extract_feature_set(&mut fe, &ru, &rl, &rr, row, *cate);
+        out.push((
+            fs.unigram().iter().map(|x| x.get()).collect(),
+            fs.bigram_right().iter().map(|x| x.map(|y| y.get())).collect(),
+            fs.bigram_left().iter().map(|x| x.map(|y| y.get())).collect(),
+        ));
+    }
+    let maps = dump_maps(&fe);
+    (out, maps)
+}
